@@ -11,7 +11,7 @@ CONSTANTS
   PowOn = FALSE
   Families = {"rate"}
   RateCmds = {"STORE"}
-  MaxHist = 9
+  MaxHist = 99
   CheckLemma = FALSE
   DevStopUnchecked = FALSE
   DevFetchOutUnchecked = FALSE
